@@ -177,6 +177,21 @@ def judge(run: Run, res, gen: str) -> None:
                 run.report("tuple|position-differs|non-ascii-line", case, "columns differ on a line with non-ASCII characters: only default: %s ; only native: %s" % (only_d[:2], only_n[:2]))
                 return
             sg = "tuple|%s|%s|only-%s|%s" % ("position-differs" if samemsg else "message-differs", ",".join(codes[:3]), "default" if only_d and not only_n else ("native" if only_n and not only_d else "both"), norm)
+            if samemsg and len(only_d) == len(only_n):
+                # pair the two sides by (file, line, message): root causes that are visible in the input itself
+                key = lambda t: (t[0], t[1], t[4], t[5])
+                pd, pn = sorted(only_d, key=key), sorted(only_n, key=key)
+                if [key(t) for t in pd] == [key(t) for t in pn]:
+                    def char_at(t):
+                        ls = file_lines(files.get(t[0], ""))
+                        lt = ls[t[1] - 1] if 0 < t[1] <= len(ls) else ""
+                        return lt[t[2] - 1] if t[2] and 0 < t[2] <= len(lt) else ""
+                    if all(a[2] is None and b[2] is not None for a, b in zip(pd, pn)):
+                        sg = "tuple|position-differs|default-parser-no-column"
+                    elif all(a[2] is not None and b[2] == a[2] + 1 and char_at(a) == "(" for a, b in zip(pd, pn)):
+                        sg = "tuple|position-differs|genexp-sole-argument-includes-call-parenthesis"
+                    elif all(a[2] is not None and b[2] == a[2] + 1 and char_at(a) == "{" for a, b in zip(pd, pn)):
+                        sg = "tuple|position-differs|fstring-debug-expression-column"
         run.report(sg, case, "diagnostics differ (python 3.%d): only default: %s ; only native: %s" % (minor, only_d[:3], only_n[:3]))
         return
     # end positions
